@@ -7,7 +7,7 @@ import tempfile
 
 import vlib
 from vlib import Spec
-from C17 import ZOO, ZOO_NAMES, NONE, enc_val, dec_val, normalise, zoo_cases, parse_4050, has
+from C17 import ZOO, ZOO_NAMES, NONE, enc_val, dec_val, normalise, zoo_cases, parse_4050, has, read_corpus
 
 PROTOC = shutil.which("protoc") or "/usr/bin/protoc"
 SCALARS = {"bool": 1, "uint32": 2, "uint64": 3, "sint32": 4, "sint64": 5, "string": 6, "bytes": 7}
@@ -257,27 +257,6 @@ def expected_dump(t, v, tid=None, top=True):
     return [0, 3, 1] + msg(t, v, tid)
 
 
-def null_shifts(t, v):
-    """a NULL component that is followed by a written component in the same SEQUENCE"""
-    if t[0] == "seq":
-        seen_null = False
-        for (opt, ft), fv in zip(t[1], v):
-            if ft[0] == "null":
-                seen_null = True
-                continue
-            if opt and fv == NONE:
-                continue
-            if seen_null:
-                return True
-            if null_shifts(ft, fv[1] if opt else fv):
-                return True
-    elif t[0] == "list":
-        return any(null_shifts(t[1], e) for e in v)
-    elif t[0] == "choice":
-        return null_shifts(t[1][v[0]], v[1])
-    return False
-
-
 def choice_null(t, v):
     if t[0] == "choice":
         return t[1][v[0]][0] == "null" or choice_null(t[1][v[0]], v[1])
@@ -293,7 +272,7 @@ class C18(Spec):
     coq_targets = ["Props/C18.vo"]
     prop_module = "Props.C18"
     theorems = ["C18_numbers_match", "C18_decodes_under_schema_partial", "C18_schema_valid_partial",
-                "C18_refuted_null_field", "C18_refuted_set_order", "C18_refuted_nested_list_proto",
+                "C18_null_field_fixed", "C18_refuted_set_order", "C18_refuted_nested_list_proto",
                 "C18_refuted_choice_list_proto", "C18_refuted_choice_null"]
     builds = [("protobuf", "dev"), ("protobuf", "release")]
     timeout_per_chunk = 300
@@ -352,13 +331,17 @@ class C18(Spec):
         st["cache"][key] = res
         return res
 
+    def corpus(self):
+        return read_corpus(self.prop)
+
+    def applies(self, line, build):
+        # 4100 / 4102 (the generated .proto text) are evaluated in extra_checks; the model has no counterpart
+        return line.split()[0] not in ("4100", "4102")
+
     def gen(self, rng, tier):
         L = []
         for tid, v in zoo_cases(rng, tier, ids=MSG_IDS):
             L.append("4050 %d 0 %s" % (tid, " ".join(map(str, enc_val(ZOO[tid], v, [])))))
-        L.append("4050 15 0 1 2")            # NullSeq { a: 1, n, b: 2 }
-        L.append("4050 14 0 7 1 120")        # SetT { a: 7, b: "x" }
-        L.append("4050 17 0 0")              # ChNull::N
         return L
 
     def ref_line(self, line):
@@ -383,8 +366,6 @@ class C18(Spec):
         # family of the value, for naming only
         if tid in DECL_ORDER:
             fam = "set_fields_sorted_by_tag"
-        elif null_shifts(t, v):
-            fam = "null_field_shifts_numbers"
         elif choice_null(t, v):
             fam = "choice_null_alternative_empty"
         else:
